@@ -140,6 +140,8 @@ def values_for(labels):
     for l in vals:
         if "irf.w" in l or l.endswith(".w") or l.endswith(".w1") or l.endswith(".w2"):
             vals[l] = 0.2 + 0.01 * len(l)
+        if l.startswith("pf.r"):
+            vals[l] = -vals[l]  # PFID damping rates are negative (anti-causal)
     return vals
 
 
@@ -156,6 +158,75 @@ def expect(kind, target, label):
     if kind == "param":
         return f"Missing parameter with label '{label}'."
     return f"Missing model item '{target}' with label '{label}'."
+
+
+def relabel(md0, style):
+    """the same model with item labels that coincide across item kinds (labels live in one namespace per kind):
+    style "numbers": the k-th item of every kind is called str(k); style "same": the first item of every kind "main" """
+    md = copy.deepcopy(md0)
+    maps = {}
+    for section in ("megacomplex", "k_matrix", "initial_concentration", "irf", "shape"):
+        items = md.get(section)
+        if not items:
+            continue
+        maps[section] = {old: (str(k + 1) if style == "numbers" else ("main" if k == 0 else f"main{k}")) for k, old in enumerate(items)}
+        md[section] = {maps[section][old]: v for old, v in items.items()}
+    for pos in positions(md0):
+        if pos[4] == "model":
+            section, key = pos[0], pos[1]
+            key = maps.get(section, {}).get(key, key) if isinstance(key, str) else key
+            set_position(md, (section, key) + tuple(pos[2:]), maps[pos[5]][pos[6]])
+    return md
+
+
+def objective(base, model, params):
+    from glotaran.optimization.optimizer import Optimizer
+    from glotaran.project import Scheme
+
+    t = np.concatenate([np.linspace(-0.5, 1, 16), np.array([2.0, 5.0, 12.0])])
+    g = np.array([1.0, 2.0, 3.0])
+    data = {}
+    for label in model.dataset:
+        if base == "spectral_model":
+            import xarray as xr
+
+            n = 1 if label == "dg" else g.size
+            data[label] = xr.Dataset({"data": (("spectral", "time"), np.ones((n, 4)) + np.arange(4))}, coords={"spectral": g[:n], "time": [0.0, 1.0, 2.0, 3.0]})
+        else:
+            data[label] = B.noisy_dataset(t, g, seed=1, salt=label)
+    scheme = Scheme(model=model, parameters=params, data=data, maximum_number_function_evaluations=1, add_svd=False)
+    with warnings.catch_warnings():
+        warnings.simplefilter("ignore")
+        opt = Optimizer(scheme, verbose=False, raise_exception=True)
+        lab, x, _, _ = params.get_label_value_and_bounds_arrays(exclude_non_vary=True)
+        opt._free_parameter_labels = lab
+        return np.asarray(opt.objective_function(x), dtype=float)
+
+
+def case_relabel(case):
+    """labels coinciding across item kinds: still valid, fillable, and evaluating to the same objective as the base model"""
+    md0 = base_models()[case["base"]]
+    md = relabel(md0, case["style"])
+    vals = values_for(all_parameter_labels(md0))
+    vs = []
+    try:
+        twin, base = B.make_model(md), B.make_model(md0)
+        issues, text, valid = issues_of(twin, B.make_parameters(vals))
+    except Exception as e:  # noqa: BLE001
+        return core.ok(key=None, outcome="raised", violations=[V(f"validation-raised/{type(e).__name__}", style=case["style"], message=str(e)[:200])])
+    if issues or not valid:
+        vs.append(V("clean-model-reported-invalid", style=case["style"], issues=issues[:5]))
+        return core.ok(key=[case["base"], case["style"]], outcome="invalid", violations=vs)
+    want = objective(case["base"], base, B.make_parameters(vals))
+    try:
+        got = objective(case["base"], twin, B.make_parameters(vals))
+    except Exception as e:  # noqa: BLE001
+        vs.append(V("valid-model-with-labels-shared-across-kinds-cannot-be-evaluated", style=case["style"], exc=repr(e)[:200]))
+        return core.ok(key=[case["base"], case["style"]], outcome="raised", violations=vs)
+    if got.shape != want.shape or not np.array_equal(got, want):
+        vs.append(V("model-with-labels-shared-across-kinds-evaluates-differently", style=case["style"],
+                    max_abs=float(np.abs(got - want).max()) if got.shape == want.shape else None))  # fmt: skip
+    return core.ok(key=[case["base"], case["style"]], outcome=len(vs), violations=vs)
 
 
 def case_model(case):
@@ -312,7 +383,7 @@ def case_rules(case):
     return core.ok(key=[case], outcome=[len(issues), valid], violations=vs)
 
 
-CASE_FUNCS = {"model": case_model, "rules": case_rules}
+CASE_FUNCS = {"model": case_model, "rules": case_rules, "relabel": case_relabel}
 
 
 def run(run: core.Run):
@@ -352,8 +423,10 @@ def run(run: core.Run):
         rules.append({"base": "parallel_osc", "kind": "oscillation_length", "field": f})
         rules.append({"base": "pfid", "kind": "pfid_length", "field": f})
     run.map("rules", rules)
+    run.map("relabel", [{"base": b, "style": st} for b in base_models() for st in ("numbers", "same")])
     run.bounds = {"base_models": list(base_models()), "reference_positions": {b: len(positions(m)) for b, m in base_models().items()},
-                  "mutations": ["clean", "misspell each position", "pairs of faults in one item", "remove each referenced item", "remove each parameter"]}  # fmt: skip
+                  "mutations": ["clean", "misspell each position", "pairs of faults in one item", "remove each referenced item", "remove each parameter",
+                                "labels coinciding across item kinds (differential objective)"]}  # fmt: skip
     run.rule = (
         "for each base model (together covering every builtin item type and reference position): the clean model (valid, "
         "fillable, evaluable, generated parameters complete, Scheme.validate agrees), every reference position misspelled in "
